@@ -30,7 +30,8 @@ pub fn run(seed: u64, ntraces: usize) {
         let token: Option<Vec<u8>> = match ty { 0 => None, 2 | 3 => Some(if r.chance(1, 4) { b"EGLD".to_vec() } else { tok.clone() }), _ => Some(tok.clone()) };
         let operator: Option<VMAddress> = if r.chance(3, 4) || t % 3 != 0 { Some(op.clone()) } else { None };
         let tid = r.bytes(32);
-        let mut now = 100_000 + r.below(50_000); w.set_time(now);
+        // every fifth trace runs across the 2^32-second mark (epochs are computed from the full 64-bit block time)
+        let mut now = if t % 5 == 4 { (1u64 << 32) - 3 - r.below(12) } else { 100_000 + r.below(50_000) }; w.set_time(now);
         let mut params = opt_addr_nested(&operator); params.extend(opt_token_nested(&token));
         let st = w.deploy(&owner, &tmaddr, b"tm", vec![s.to_vec(), if ty == 0 { vec![] } else { vec![ty as u8] }, tid.clone(), params]);
         let init = json!({"self": hx(tmaddr.as_bytes()), "service": hx(s.as_bytes()), "type": ty, "tid": hx(&tid),
@@ -63,7 +64,7 @@ pub fn run(seed: u64, ntraces: usize) {
         // directed: the operator takes the flow-limiter role away from the service, which then tries to move the limit (kinds 3/4/5: 10*caller + target)
         if t % 3 == 2 && operator.is_some() && cur_token.is_some() { forced = vec![(2, 30), (4, 10), (2, 1000), (0, 500), (0, 30), (3, 13), (2, 1000), (5, 13), (2, 7)]; }
         // directed (native managers): issuance, then the minter calls deployInterchainToken again naming someone else; or a failed issuance retried by the minter
-        if ty == 0 { let extra: Vec<(u64, u64)> = if t % 2 == 0 { vec![(14, 2), (16, 1), (12, 24), (14, 24), (16, 1), (12, 43), (9, 23), (14, 34)] } else { vec![(14, 2), (16, 0), (14, 24), (16, 1), (12, 24), (14, 3)] }; forced.extend(extra); }
+        if ty == 0 { let extra: Vec<(u64, u64)> = if t % 2 == 0 { vec![(14, 2), (14, 44), (16, 1), (12, 24), (14, 24), (16, 1), (12, 43), (9, 23), (14, 34)] } else { vec![(14, 2), (14, 44), (16, 0), (14, 24), (16, 1), (12, 24), (14, 3)] }; forced.extend(extra); }
         // an account holding BOTH roles (the minter after the operator hands operatorship to it) proposes one of them: only that one can be accepted
         if ty == 0 && operator.is_some() { forced.extend(vec![(6, 12), (7, 24), (11, 42), (8, 42), (10, 23), (8, 32), (11, 32)]); }
         for _ in 0..(nops + forced.len()) {
